@@ -1,0 +1,150 @@
+//! Verification hooks (feature `verif`, off by default).
+//!
+//! This module exposes the otherwise private pipeline stages and a
+//! thread-local event recorder to the external conformance harness.
+//! Nothing here is compiled unless the `verif` feature is enabled,
+//! and nothing here changes the behaviour of the pipeline:
+//! the call sites only *record* what the pipeline did.
+
+use crate::data::{
+    machine::{Machine, StateItem},
+    table::{Action, Table},
+    validated_file, KikiErr, RustSrc, Symbol,
+};
+use crate::pipeline::prelude as p;
+
+use std::cell::RefCell;
+
+pub use crate::data::token::Token;
+
+/// One recorded step of the pipeline.
+#[derive(Debug, Clone)]
+pub enum Event {
+    /// The tokenizer is about to consume the `char` `c` at byte `index`
+    /// (or, with `c == None`, to run the final flush at end of input).
+    /// `state` is the tokenizer state *before* the step, rendered as
+    /// `(kind, field0, field1, field2)`; `out_len` is the number of tokens emitted so far.
+    LexStep {
+        index: usize,
+        c: Option<char>,
+        state: (&'static str, usize, usize, usize),
+        out_len: usize,
+    },
+    /// FIRST sets as computed by `get_first_sets`, sorted by nonterminal name.
+    FirstSets(Vec<(String, Vec<String>, bool)>),
+    /// The machine builder popped this state index from its work queue.
+    BuilderPop(usize),
+    /// The machine builder computed the transition target of `from` on `symbol`
+    /// and either merged it into the existing state `to` (`is_new == false`,
+    /// `grew` says whether items were added) or appended it as a new state `to`.
+    BuilderTarget {
+        from: usize,
+        symbol: Symbol,
+        to: usize,
+        is_new: bool,
+        grew: bool,
+        items_after: Vec<StateItem>,
+    },
+    /// `TableBuilder::set_action` was called.
+    /// `outcome`: 0 = cell was empty, 1 = same action already present, 2 = conflict.
+    SetAction {
+        state: usize,
+        /// `None` is end of input.
+        quasiterminal: Option<String>,
+        action: Action,
+        outcome: u8,
+    },
+    /// The order in which `build_as_is` visited the action cells (hash-map order).
+    FillOrder(Vec<(usize, Option<String>)>),
+    /// The order in which `build_as_is` visited the goto cells (hash-map order).
+    GotoFillOrder(Vec<(usize, String)>),
+    /// The identifiers allocated by `SrcBuilder::new`, in allocation order.
+    FreshNames(Vec<String>),
+}
+
+thread_local! {
+    static RECORDER: RefCell<Option<Vec<Event>>> = const { RefCell::new(None) };
+}
+
+/// Starts recording events on this thread (discarding any earlier recording).
+pub fn start_recording() {
+    RECORDER.with(|r| *r.borrow_mut() = Some(Vec::new()));
+}
+
+/// Stops recording and returns what was recorded.
+pub fn take_recording() -> Vec<Event> {
+    RECORDER.with(|r| r.borrow_mut().take().unwrap_or_default())
+}
+
+/// Records one event if recording is on. The closure is not evaluated otherwise.
+pub fn record(make: impl FnOnce() -> Event) {
+    RECORDER.with(|r| {
+        let mut r = r.borrow_mut();
+        if let Some(events) = r.as_mut() {
+            events.push(make());
+        }
+    });
+}
+
+pub fn is_recording() -> bool {
+    RECORDER.with(|r| r.borrow().is_some())
+}
+
+pub fn tokenize(src: &str) -> Result<Vec<Token>, KikiErr> {
+    p::tokenize(src)
+}
+
+/// Every intermediate value of one `generate` call.
+/// A stage that was not reached is `None`.
+#[derive(Debug, Default)]
+pub struct Stages {
+    pub tokens: Option<Vec<Token>>,
+    pub validated: Option<validated_file::File>,
+    pub machine: Option<Machine>,
+    pub table: Option<Table>,
+    pub result: Option<Result<RustSrc, KikiErr>>,
+}
+
+/// Runs the same stages as `generate`, in the same order, keeping the intermediates.
+pub fn stages(src: &str) -> Stages {
+    let mut out = Stages::default();
+    let tokens = match p::tokenize(src) {
+        Ok(t) => t,
+        Err(e) => {
+            out.result = Some(Err(e));
+            return out;
+        }
+    };
+    out.tokens = Some(tokens.clone());
+    let cst = match p::parse(tokens) {
+        Ok(cst) => cst,
+        Err(unexpected) => {
+            out.result = Some(Err(p::unexpected_token_or_eof_to_kiki_err(
+                unexpected.as_ref(),
+                src,
+            )));
+            return out;
+        }
+    };
+    let ast: crate::data::ast::File = cst.into();
+    let validated = match p::validate_ast(ast) {
+        Ok(v) => v,
+        Err(e) => {
+            out.result = Some(Err(e));
+            return out;
+        }
+    };
+    out.validated = Some(validated.clone());
+    let machine = p::validated_ast_to_machine(&validated);
+    out.machine = Some(machine.clone());
+    let table = match p::machine_to_table(&machine, &validated) {
+        Ok(t) => t,
+        Err(e) => {
+            out.result = Some(Err(e));
+            return out;
+        }
+    };
+    out.table = Some(table.clone());
+    out.result = Some(Ok(p::table_to_rust(&table, &validated, src)));
+    out
+}
